@@ -1169,6 +1169,93 @@ func (k *c12run) sharedLists() {
 	}
 }
 
+// longNames: strings and names of 65..130 bytes (a GEDCOM NAME may have 120 characters), with repeated
+// characters, through Jaro-Winkler (model and implementation), StringSimilarity and the individuals' name
+// similarity: identical -> 1, symmetric, inside [0,1], equal to the model.
+func (k *c12run) longNames() {
+	c := k.c
+	r := k.r
+	mk := func(alpha string, n int) string {
+		var sb strings.Builder
+		for sb.Len() < n {
+			sb.WriteByte(alpha[r.Intn(len(alpha))])
+		}
+		return sb.String()
+	}
+	n := c.N(120, 3000)
+	for i := 0; i < n; i++ {
+		alpha := []string{"ab", "abc", "abcdefgh", "aab ", "abcdefghijklmnopqrstuvwxyz"}[r.Intn(5)]
+		a := mk(alpha, 65+r.Intn(66))
+		var b string
+		switch r.Intn(5) {
+		case 0:
+			b = a
+		case 1:
+			b = k.mutate(a)
+		case 2:
+			b = k.mutate(k.mutate(k.mutate(a)))
+		case 3:
+			b = mk(alpha, 65+r.Intn(66))
+		default: // the same text shifted: matches far from the diagonal, beyond position 64
+			cut := 1 + r.Intn(20)
+			b = a[cut:] + a[:cut]
+		}
+		boost, prefix := c12boosts[r.Intn(len(c12boosts))], r.Intn(11)
+		k.jw(a, b, boost, prefix, true)
+		k.jw(a, a, boost, prefix, i%4 == 0)
+		c.Count("string:long (65..130 bytes)")
+		c.Nontrivial("long:" + a + "|" + b)
+	}
+	// long names: words of letters, as NAME values and through the individuals
+	words := []string{"Maximilian", "Alexander", "Bartholomew", "Wolfeschlegelstein", "Hausenberger", "Dorffvoralternwaren", "Gewissenhaftschafer",
+		"von", "und", "zu", "de", "la", "Anna", "Maria", "Magdalena", "Elisabeth", "Aaaaaaaaaa", "Bababababa"}
+	name := func() string {
+		var parts []string
+		l := 0
+		target := 66 + r.Intn(50)
+		for l < target {
+			w := words[r.Intn(len(words))]
+			parts = append(parts, w)
+			l += len(w) + 1
+		}
+		cut := len(parts) - 1 - r.Intn(2)
+		return strings.Join(parts[:cut], " ") + " /" + strings.Join(parts[cut:], " ") + "/"
+	}
+	m := c.N(60, 1500)
+	for i := 0; i < m; i++ {
+		a := name()
+		b := a
+		switch r.Intn(4) {
+		case 0:
+			b = name()
+		case 1:
+			b = k.mutateASCII(a)
+		case 2:
+			b = strings.ToUpper(a)
+		}
+		k.strsim(a, b, c12boosts[r.Intn(len(c12boosts))], r.Intn(11))
+		c.Count("string:long names (NAME values of 66..120 bytes)")
+		if i%3 == 0 {
+			text := "0 @N0@ INDI\n1 NAME " + a + "\n1 BIRT\n2 DATE 1900\n1 DEAT\n2 DATE 1950\n0 @N1@ INDI\n1 NAME " + strings.TrimSpace(strings.ReplaceAll(b, "\n", "")) +
+				"\n1 BIRT\n2 DATE 1900\n1 DEAT\n2 DATE 1950\n"
+			doc, err := gedcom.NewDocumentFromString(text)
+			if err != nil || len(doc.Individuals()) != 2 {
+				continue
+			}
+			ind := doc.Individuals()
+			e := &c12env{ids: map[*gedcom.IndividualNode]int{ind[0]: 0, ind[1]: 1}}
+			o := c12randOpts(r)
+			k.indiPair(e, text, ind[0], ind[1], o)
+			k.indiPair(e, text, ind[0], ind[0], o)
+			if s := ind[0].Similarity(ind[0], o.Go()); s != 1 {
+				c.Oracle("", "an individual with a (long) name and both dates does not score 1 against itself",
+					map[string]interface{}{"documents": text, "individual": "N0", "options": o.wire()}, c12fl(s), "1")
+			}
+			c.Count("individual:long names")
+		}
+	}
+}
+
 // tieShapes: decisions that sit EXACTLY on a tie in the exact model, where the float64 implementation
 // may go either way by the last bit. They run on every check so that the handling is exercised:
 //   - dates exactly MaxYears apart (cut-off `> 1 -> 0`): both sides give 0 within 1e-9 (the parabola is
@@ -1291,13 +1378,14 @@ func init() {
 		c12inconclusive = func() {
 			c.Dist["inconclusive (float64 comparison within 1e-9 of its threshold, or a decision on an exact tie of the model)"]++
 		}
-		c.Rule = "strings: every pair over {a,b} up to length 6 (thorough 8) through model and implementation, every pair over {a,b,c} up to length 5 (thorough 7) through the oracle, random strings (length < 24) over small alphabets and their typo-mutations, names with case/punctuation/space runs/Unicode/invalid UTF-8; dates: all pairs of a boundary set, random pairs of every DATE form, distance chains; individuals, lists (with duplicates and shared people), families and surrounding similarity on random family graphs vs an edited copy or an independent graph, default and random options (weights k/20 summing to 1, prefix <= 10, MaxYears > 0); distinct = distinct string pairs / date pairs / (graph, query)"
+		c.Rule = "strings: every pair over {a,b} up to length 6 (thorough 8) through model and implementation, every pair over {a,b,c} up to length 5 (thorough 7) through the oracle, random strings (length < 24) over small alphabets and their typo-mutations, names with case/punctuation/space runs/Unicode/invalid UTF-8, long strings and NAME values (65..130 bytes, repeated characters, shifted copies); dates: all pairs of a boundary set, random pairs of every DATE form, distance chains; individuals, lists (with duplicates and shared people), families and surrounding similarity on random family graphs vs an edited copy or an independent graph, default and random options (weights k/20 summing to 1, prefix <= 10, MaxYears > 0); distinct = distinct string pairs / date pairs / (graph, query)"
 		k := &c12run{c: c, r: c.R, laws: map[c12rat][]c12lawPt{}}
 		k.strings()
 		k.dates()
 		k.graphs()
 		k.sharedLists()
 		k.tieShapes()
+		k.longNames()
 		c.Notes = append(c.Notes, "scores compared within 1e-9 of the model's exact fraction; bounds, symmetry, identity, neutral 0.5, cut-off and monotonicity are checked exactly on the float64 values (list/weighted symmetry within 1e-12: summation order)")
 	}
 }
